@@ -415,7 +415,31 @@ def rule_multi_a_witness_order(ctx: Ctx, rep: Report) -> None:
     rep.floor(rule, 1)
 
 
+def rule_script_sig_is_pushes(ctx: Ctx, rep: Report) -> None:
+    """C10.script_sig_is_pushes: a script_sig is a script: what a finalizer or a
+    solver answers as the script_sig is `serialize([...])` of the elements it
+    pushes (or that of an empty list), never a field of the psbt as it is -- the
+    redeem script *is* the bytes to push, and answered raw it is executed
+    instead of pushed ("false top stack element" for every sh(wsh()))."""
+    rule = "C10.script_sig_is_pushes"
+    from sa.canon import expand
+    n = 0
+    for q in ("btclib.psbt.psbt._finalized_input", "btclib.descriptors.descriptors.miniscript_solver"):
+        fi = ctx.func(q)
+        for r in own_nodes(fi.node):
+            if isinstance(r, ast.Return) and isinstance(r.value, ast.Tuple) and len(r.value.elts) == 2:
+                n += 1
+                e = r.value.elts[0]
+                text = str(expand(fi, e))
+                ok = text.replace(" ", "").startswith("serialize(") or text in ("b''", 'b""')
+                rep.ob(rule, f"{fi.name}:return@{r.lineno - fi.node.lineno}", ok, fi.where(r), "the script_sig is a serialization of pushes" if ok else
+                       f"the script_sig answered is `{text[:60]}`, not the serialization of what it pushes")
+    rep.floor(rule, 5)
+
+
 RULES = [
+    ("C10.script_sig_is_pushes", rule_script_sig_is_pushes),
+
     ("C10.control_blocks_prove", rule_control_blocks_prove),
     ("C10.multi_a_witness_order", rule_multi_a_witness_order),
 
